@@ -9,7 +9,9 @@ def get_keywordarg_dict(klass, is_mixin=False):
     init_dicts = {}
     if not is_mixin:
         init_dicts = {}
-        args, varargs, varkw, defaults = inspect.getargspec(klass.__init__)
+        spec = inspect.getfullargspec(klass.__init__)
+        args, varargs, varkw, defaults = \
+            spec.args, spec.varargs, spec.varkw, spec.defaults
         log.debug('Inpection {} {} {} {}'.format(args,
                                                  varargs,
                                                  varkw,
